@@ -71,16 +71,25 @@ func (w *psWorld) signer(id uint16) *ps.TPS {
 	return p
 }
 
+var psWorldCount = 0
+
 func newPSWorld(r *prng.R, s *out.Sink, n, t, msgLen int) *psWorld {
 	parties := make([]uint16, n)
 	for i := range parties {
 		parties[i] = uint16(i + 1)
 	}
-	if r.Intn(3) == 0 {
+	psWorldCount++
+	if psWorldCount%3 != 1 {
 		// party identifiers from the corners of the 16-bit range
 		parties = pickIDs(r, n)
 		sort.Slice(parties, func(i, j int) bool { return parties[i] < parties[j] })
 		s.Count("complete/corner-identifiers")
+	}
+	if psWorldCount%2 == 0 {
+		// the party list in another than ascending order, the same at every party and at the prover (a party's evaluation
+		// point and its place in the public material are its position in the list)
+		parties[0], parties[n-1] = parties[n-1], parties[0]
+		s.Count("complete/permuted-party-list")
 	}
 	d := newDkgRun("ps", parties, t, msgLen)
 	d.reorder = r.Intn(3) != 0
@@ -159,6 +168,23 @@ func (w *psWorld) flow(s *out.Sink, msg [][]byte, S []uint16, desc string) *psOb
 	if err := w.verifier.Verify(o.proof); err != nil {
 		s.Violate("C08", fmt.Sprintf("the proof of knowledge built from the witnesses of %v does not verify under the threshold public key: %v", S, err), desc)
 		return nil
+	}
+	// the same set with its witnesses listed in another (arrival) order: a set of signers has no order
+	if len(S) >= 2 {
+		P := make([]uint16, len(S))
+		wp := make([]ps.SignatureWitness, len(S))
+		for i := range S {
+			P[len(S)-1-i], wp[len(S)-1-i] = S[i], wits[i]
+		}
+		if len(S) >= 3 {
+			P[0], P[1] = P[1], P[0]
+			wp[0], wp[1] = wp[1], wp[0]
+		}
+		s.Count("complete/flow-arrival-order")
+		pr := w.prover.ProveKnowledgeOfSignature(o.secret, append([]uint16(nil), P...), wp)
+		if err := w.verifier.Verify(pr.Bytes()); err != nil {
+			s.Violate("C08", fmt.Sprintf("the proof of knowledge built from the witnesses of the signers listed as %v does not verify under the threshold public key: %v", P, err), desc)
+		}
 	}
 	return o
 }
